@@ -125,7 +125,8 @@ func TestValidateBlock(t *testing.T) {
 		}
 		lib.Case(name, lib.FP("valid", chainFP), true, "kind:valid/accept", sizeClass, changed, "profile:"+b.profile,
 			fmt.Sprintf("initial:%v", e.initial), fmt.Sprintf("pool:%v", b.realPool), "nil-votes-move-median:"+medNil,
-			fmt.Sprintf("apphashlen:%d", len(e.st.AppHash)), fmt.Sprintf("far-stamped-commits:%v", b.farApplied > 0))
+			fmt.Sprintf("apphashlen:%d", len(e.st.AppHash)), fmt.Sprintf("far-stamped-commits:%v", b.farApplied > 0),
+			fmt.Sprintf("lastcommit-via-voteset:%v", b.viaVoteSet[c.Tip()]), fmt.Sprintf("stray-precommits:%v", b.strayApplied > 0))
 
 		// perturbations
 		kinds := append([]string{}, headerKinds...)
